@@ -1260,15 +1260,18 @@ class EtreeElementNode(ElementNode):
                     elif node.name in (sub_cache := element_match_cache[id(content)]):
                         xsd_element = sub_cache[node.name]
                     else:
-                        for xsd_element in content.iter_elements():
-                            if xsd_element.is_matching(node.name):
-                                if xsd_element.name != node.name:
-                                    # a wildcard or a substitute
-                                    xsd_element = schema.get_element(node.name)
-                                sub_cache[node.name] = xsd_element
+                        xsd_element = None
+                        for particle in content.iter_elements():
+                            if particle.name == node.name:
+                                xsd_element = particle  # a declaration wins over wildcards
                                 break
-                        else:
-                            xsd_element = None
+                            elif xsd_element is None and particle.is_matching(node.name):
+                                xsd_element = particle
+                        if xsd_element is not None:
+                            if xsd_element.name != node.name:
+                                # a wildcard or a substitute
+                                xsd_element = schema.get_element(node.name)
+                            sub_cache[node.name] = xsd_element
 
                     xsd_type = getattr(xsd_element, 'type', None)
                     node.xsd_element = xsd_element
